@@ -270,7 +270,7 @@ fn compile(
             .unwrap_or_default()
     };
 
-    Ok(StackEclFile {
+    errors.into_result(StackEclFile {
         subs,
         anim_list: meta.anim,
         ecli_list: meta.ecli,
